@@ -18,7 +18,36 @@ pub enum Probe {
     B(le::U16),
 }
 
-#[cfg(not(any(feature = "tag_u16", feature = "tag_u32")))]
+#[cfg(feature = "np_sized_field")]
+#[flat(portable = true)]
+#[derive(Clone, Copy)]
+pub struct Probe {
+    a: u8,
+    b: u32,
+}
+
+#[cfg(feature = "np_struct_tail")]
+#[flat(sized = false, portable = true)]
+pub struct ProbeU {
+    a: le::U16,
+    b: flatty::FlatVec<u32, le::U16>,
+}
+
+#[cfg(feature = "np_enum_tail")]
+#[flat(sized = false, portable = true)]
+pub enum ProbeU {
+    A,
+    B(le::U16, flatty::FlatVec<u32, le::U16>),
+}
+
+#[cfg(feature = "np_native_len")]
+#[flat(sized = false, portable = true)]
+pub struct ProbeU {
+    a: le::U16,
+    b: flatty::FlatVec<le::U32, u16>,
+}
+
+#[cfg(not(any(feature = "tag_u16", feature = "tag_u32", feature = "np_sized_field", feature = "np_struct_tail", feature = "np_enum_tail", feature = "np_native_len")))]
 #[flat(portable = true)]
 #[derive(Clone, Copy)]
 pub enum Probe {
@@ -26,7 +55,23 @@ pub enum Probe {
     B(le::U16),
 }
 
+fn assert_portable<T: flatty::Portable + ?Sized>() {}
+
+#[cfg(any(feature = "np_struct_tail", feature = "np_enum_tail", feature = "np_native_len"))]
 fn main() {
+    assert_portable::<ProbeU>();
+    println!("align={} claims-portable", <ProbeU as FlatBase>::ALIGN);
+}
+
+#[cfg(feature = "np_sized_field")]
+fn main() {
+    assert_portable::<Probe>();
+    println!("align={} claims-portable", <Probe as FlatBase>::ALIGN);
+}
+
+#[cfg(not(any(feature = "np_sized_field", feature = "np_struct_tail", feature = "np_enum_tail", feature = "np_native_len")))]
+fn main() {
+    assert_portable::<Probe>();
     let v = Probe::B(le::U16::from(0x1234));
     let bytes = v.as_bytes();
     let hex: String = bytes.iter().map(|b| format!("{:02x}", b)).collect();
